@@ -1781,8 +1781,10 @@ impl ElementMut for XmlElement {
             return Err(error::DomException::WrongDocumentErr)?;
         }
 
-        if new_attr.attribute.borrow().order() != 0 {
-            return Err(error::DomException::InuseAttributeErr)?;
+        if let Ok(owner) = new_attr.attribute.borrow().owner_element() {
+            if !Rc::ptr_eq(&owner, &self.element) {
+                return Err(error::DomException::InuseAttributeErr)?;
+            }
         }
 
         let attr = self
